@@ -14,28 +14,27 @@ import (
 	"verif/harness/gen"
 	"verif/harness/model"
 	"verif/harness/rs"
+	"verif/harness/sim"
 )
 
 // C08: store reads honour ordinals; deltas are consistent.
 
 func init() {
-	pairs := model.Pairs()
 	fw.Register(&fw.Spec{
 		ID:    "C08",
 		Level: "exploration",
 		Rule: "case = one (policy,value type) pair x one PRNG chain of blocks (0..6 host-call ops each, ordinals 0..5 repeated / non-monotonic, delete_prefix mixed in) executed on a real FullKV and on a real PartialKV through wasm.Call.Do*; " +
 			"after every Flush every key of the key space (plus an unused key) is read at every ordinal 0..max+1 with get_first/get_last/get_at/has_first/has_last/has_at through wasm.Call.DoGet*/DoHas* and compared with the model; deltas are replayed on the pre-block content. " +
+			"end-to-end part (the last cases: quick 40, thorough 4 000): generated packages in which 60 % of the modules (stores included) carry a block filter, so that stores are skipped on many blocks, or have all their inputs skipped, or are replayed from cached outputs; one development-mode and one production-mode request; every get_first / get_last / get_at / has_* a module performs through the host interface (recorded by the native runtime) must return what the same call returns in the sequential reference - in particular a store that did not run on a block shows no writes of an earlier block at any ordinal. " +
 			"non-trivial = block with >=2 ops on one key at different ordinals or a delete_prefix hitting a live key; distinct by hash of (pair, pre-state, ops)",
 		Assumptions: []string{
 			"the store model (harness/model/store.go) is the statement of ordinal semantics: stable sort by ordinal, get_at(ord) = value after all ops with ordinal <= ord",
 			"exact numeric operands (see C02)",
 		},
 		Cases: func(tier, mode string) int {
-			if tier == "thorough" {
-				return len(pairs) * 8000
-			}
-			return len(pairs) * 12
+			return c08StoreCases(tier) + c08E2ECases(tier)
 		},
+		CaseTimeout:   240e9,
 		MinNontrivial: 100,
 		Run:           runC08,
 	})
@@ -47,7 +46,63 @@ func rawContent(st store.Store) map[string][]byte {
 	return out
 }
 
+func c08StoreCases(tier string) int {
+	if tier == "thorough" {
+		return len(model.Pairs()) * 8000
+	}
+	return len(model.Pairs()) * 12
+}
+
+func c08E2ECases(tier string) int {
+	if tier == "thorough" {
+		return 4000
+	}
+	return 40
+}
+
+// runC08E2E: ordinal reads as modules perform them inside the real pipeline, with stores that often do NOT run on a block.
+func runC08E2E(c *fw.Case) {
+	s := newScen(c, gen.PkgOpts{MaxMods: 7, FilterProb: 0.6, IndexProb: 0.25})
+	defer s.close()
+	outs := s.outputs()
+	if c.Violated() || len(outs) == 0 {
+		c.Count("packages_without_visible_output", 1)
+		return
+	}
+	out := outs[c.R.Intn(len(outs))]
+	ref := s.ref(out)
+	for _, prod := range []bool{false, true} {
+		req := s.genRequest(out)
+		req.Prod = prod
+		req.FinalBlocksOnly = false
+		if pl, err := s.cl.PlanFor(req); err != nil || pl.KnownHangShape() {
+			continue
+		}
+		res := s.cl.Run(req)
+		c.Count("e2e_requests", 1)
+		if res.Err != nil || res.Stuck {
+			c.Count("e2e_requests_failed_not_decided_here", 1)
+			c.Logf("request failed (decided by C01): stuck=%v err=%v", res.Stuck, res.Err)
+			continue
+		}
+		rf, compared, execs := sim.CheckReads(res.Execs, ref)
+		s.report("C08/e2e", rf, map[string]any{"request": req, "jobs": res.Jobs})
+		c.Count("e2e_store_reads_compared", int64(compared))
+		c.Count("e2e_module_executions_observed", int64(execs))
+		if c.Violated() {
+			return
+		}
+		if compared > 0 {
+			c.Nontrivial(fmt.Sprintf("e2e|%v|%+v", s.pkg.Describe(), req))
+		}
+	}
+}
+
 func runC08(c *fw.Case) {
+	if c.Index >= c08StoreCases(c.Tier) {
+		runC08E2E(c)
+		return
+	}
 	pairs := model.Pairs()
 	p := pairs[c.Index%len(pairs)]
 	g := gen.NewStoreOps(c.R, p)
